@@ -450,6 +450,35 @@ Section Paginate.
   Qed.
 End Paginate.
 
+(* no limit configured (max_pages = None, which is also what PaginationConfig::default() says):
+   however many good pages there are, all of them and the final page are fetched and returned -
+   no implicit cap *)
+Lemma paginate_unlimited_all_pages :
+  forall T M (c : pagination_cfg) (fetch : N -> N -> res (list T * bool) M) fuel n items,
+    max_pages c = None ->
+    (forall j, (j < n)%nat -> page_good fetch (page_size c) j = true) ->
+    fetch (N.of_nat n) (page_size c) = ROk (items, false) -> items <> [] ->
+    (n < fuel)%nat -> (N.of_nat n < u32_max)%N ->
+    paginate_cfg fuel c fetch =
+    (Done (ROk (pages_cat fetch (page_size c) 0 (S n))), page_calls (page_size c) 0 (S n)).
+Proof.
+  intros T M c fetch fuel n items Hmp Hgood Hlast Hne Hfuel Hmax.
+  unfold paginate_cfg. rewrite Hmp.
+  rewrite (paginate_spec T M None (page_size c) fetch fuel n).
+  - cbn [at_limit]. rewrite Hlast.
+    destruct items as [|x items]; [contradiction|]. cbn [is_nil].
+    assert (Hneq : (N.of_nat n =? u32_max)%N = false) by (apply N.eqb_neq; lia).
+    now rewrite Hneq.
+  - intros j Hj. split; [now apply Hgood|reflexivity].
+  - right. unfold page_good. rewrite Hlast. now rewrite andb_false_r.
+  - exact Hfuel.
+  - lia.
+Qed.
+
+Lemma pagination_default_fields :
+  page_size pagination_cfg_default = 100%N /\ max_pages pagination_cfg_default = None.
+Proof. split; reflexivity. Qed.
+
 Lemma paginate_wrappers : forall T M fuel ps mp (fetch : N -> N -> res (list T * bool) M),
     run_paginated_operation fuel ps mp fetch = paginate fuel ps mp fetch /\
     run_cloud_io_paginated fuel ps mp fetch = paginate fuel ps mp fetch.
@@ -477,4 +506,6 @@ Definition ex_fetch (page ps : N) : res (list N * bool) nat :=
   match page with
   | 0 => ROk ([1; 2], true) | 1 => ROk ([3; 4], true) | 2 => ROk ([5], false) | _ => ROk ([], false)
   end%N.
+(* 1005 single-item pages, the last one final *)
+Definition ex_long (page ps : N) : res (list N * bool) nat := ROk ([page], (page <? 1004)%N).
 Definition ex_endless (page ps : N) : res (list N * bool) nat := ROk ([page], true).
